@@ -259,7 +259,7 @@ Proof.
 Qed.
 
 (* ------------------------------------------------------------------ finding witnesses *)
-Open Scope string_scope.
+Local Open Scope string_scope.
 
 Definition tr_id (s : string) : cfg := Leaf s.
 
